@@ -185,4 +185,17 @@ theorem C05_sweep_is_common_sweep_cut (ar : Arith) (cfg : Cfg) (op : Op) (fq : F
           (cfg.budget + 1) { arena := fq.arena, heap := fq.heap }) :=
   sweepLoop_is_cut_union ar cfg op _ _ _ _ _ rfl
 
+/-- two overlapping rectangles used as a witness below -/
+def cutA : MPoly := [{ ext := [⟨0,0⟩, ⟨2,0⟩, ⟨2,2⟩, ⟨0,2⟩, ⟨0,0⟩], holes := [] }]
+def cutB : MPoly := [{ ext := [⟨1,1⟩, ⟨5,1⟩, ⟨5,3⟩, ⟨1,3⟩, ⟨1,1⟩], holes := [] }]
+
+/-- the cut is real: on these operands the sweep of intersection records 21 events and stops, the sweep of
+    union records all 24 (evaluated by the kernel, exact arithmetic) -/
+theorem C05_cut_is_proper :
+    (match subdivide Arith.exact {} (fillQueue cutA cutB .intersection).fq ⟨0,0,2,2⟩ ⟨1,1,5,3⟩ .intersection with
+      | .ok o => o.sorted.size | _ => 0) = 21
+    ∧ (match subdivide Arith.exact {} (fillQueue cutA cutB .union).fq ⟨0,0,2,2⟩ ⟨1,1,5,3⟩ .union with
+      | .ok o => o.sorted.size | _ => 0) = 24 := by
+  decide +kernel
+
 end Gbo.Props
